@@ -117,7 +117,11 @@ def report(prop, tier, seed, results, wall, write=True) -> int:
             hit = None
             for k in kf:
                 pred = getattr(known_mod, k["predicate"])
-                if pred(job, f):
+                try:
+                    matched = pred(job, f)
+                except Exception:  # a predicate that cannot judge does not match
+                    matched = False
+                if matched:
                     hit = k
                     break
             if hit:
